@@ -25,6 +25,7 @@ LEVEL_NOTE = ("edit_predicts is a composition with the build model of C02 (anoth
               "hypothesis and sampled through real builds. owners is modelled for cleaned package-relative input paths (no '..', no globs). "
               "Trusted: Lean kernel; propext/Classical.choice/Quot.sound; the correspondence harness; JSON loader, cobra/viper flag plumbing (CLI tie only).")
 TECHNIQUE = "Lean 4 proof over an executable model + differential correspondence (in-process command bodies and real CLI stdout)"
+PROP_MODULES = ["GrogModel.Props.C20", "GrogModel.Props.ComposeQuery"]
 OBLIGATIONS = [
     "Grog.C20.deps_exact",
     "Grog.C20.rdeps_exact",
@@ -40,6 +41,8 @@ OBLIGATIONS = [
     "Grog.C20.changes_exact",
     "Grog.C20.owners_noncanonical_witness",
     "Grog.C20.printedDistinct_of_labels",
+    "Grog.Compose.reexec_downstream",
+    "Grog.Compose.edit_predicts",
 ]
 ASSUMPTIONS = [
     "labels of distinct nodes are distinct (BuildNodeMap is keyed by label) — hypothesis LabelsDistinct of the exactness theorems",
